@@ -869,6 +869,11 @@ func (env *SpecEnv) call(x *ECall) *Val {
 			return env.fail("spec func recursion too deep: " + x.Fun)
 		}
 		c := &SpecEnv{fx: fx, st: env.st, old: env.old, vars: map[string]*Val{}, fn: env.fn, pkg: env.pkg, depth: env.depth + 1}
+		if sf.Pkg != "" {
+			if sp, ok := fx.eng.SSAPkgs[sf.Pkg]; ok {
+				c.pkg = sp.Pkg // spec functions are evaluated in the scope of the package that defines them
+			}
+		}
 		// quantifier-bound variables stay visible (spec functions are macros)
 		for i, p := range sf.Params {
 			c.vars[p] = arg(i)
